@@ -50,12 +50,21 @@ def iExpectScVec {α : Type} [ScoreNum α] [IntScore α] (a : Alphabet) (sc : Li
 /-- `esl_abc_CIsGap(a, c)` = `isascii(c) && a->inmap[c] == a->K` -/
 def cIsGap (a : Alphabet) (c : Nat) : Bool := decide (c < 128) && decide (a.inmapAt c = a.K)
 
+/-- bit mask of the macros `esl_abc_XIs{Valid,Residue,Canonical,Gap,Degenerate,Unknown,Nonresidue,Missing}(a, x)` (bits 0..7) -/
+def xClass (a : Alphabet) (x : Nat) : Nat :=
+  (if a.xIsValid x then 1 else 0) + (if a.xIsResidue x then 2 else 0) + (if a.xIsCanonical x then 4 else 0) +
+  (if a.xIsGap x then 8 else 0) + (if a.xIsDegenerate x then 16 else 0) + (if a.xIsUnknown x then 32 else 0) +
+  (if a.xIsNonresidue x then 64 else 0) + (if a.xIsMissing x then 128 else 0)
+
+/-- the same for `esl_abc_CIs…(a, c)` = `isascii(c) && <the X macro on a->inmap[c]>`; a byte ≥ 0x80 is in no class -/
+def cClass (a : Alphabet) (c : Nat) : Nat := if c < 128 then a.xClass (a.inmapAt c) else 0
+
 /-- `esl_abc_dsqcpy(dsq, L, dcopy)`: `memcpy` of `L+2` codes; `none` = reads past the end of `dsq` -/
 def dsqcpy (dsq : List Nat) (L : Nat) : Option (List Nat) :=
   if L + 2 ≤ dsq.length then some (dsq.take (L + 2)) else none
 
-/-- `esl_abc_dsqdup(dsq, L, &dup)`: `dsq = none` is NULL (answer NULL), `L = none` is -1 (length found by `esl_abc_dsqlen`);
-    outer `none` = a read outside `dsq` -/
+/-- `esl_abc_dsqdup(dsq, L, &dup)`: `dsq = none` is NULL (answer NULL), `L = none` is -1 (length found by `esl_abc_dsqlen`),
+    then its own `memcpy` of `L+2` codes (the same copy as `esl_abc_dsqcpy`); outer `none` = a read outside `dsq` -/
 def dsqdup (dsq : Option (List Nat)) (L : Option Nat) : Option (Option (List Nat)) :=
   match dsq with
   | none => some none
